@@ -508,9 +508,13 @@ pub fn tr_if(cx: &mut Ctx, i: &ExprIf, expected: Option<&Ty>) -> R<Tr> {
         return Ok(Tr::new(format!("(match {} with\n | {} => {}\n | _ => {})", scrut.val(), pat, a.val(), b.val()), a.ty));
     }
     let c = tr_expr(cx, &i.cond, Some(&Ty::Bool))?;
+    let n_pre = cx.prelude.len();
     let a = tr_block_value(cx, &i.then_branch, expected)?;
     let exp2 = expected.cloned().or(Some(a.ty.clone()));
     let b = tr_expr(cx, &els.1, exp2.as_ref())?;
+    if cx.prelude.len() != n_pre {
+        return Err("side effect (&mut call / iterator advance) inside a conditional expression".into());
+    }
     let ty = if matches!(a.ty, Ty::Never | Ty::Unknown(_)) || a.ty == Ty::Int(IntK::Unk) { b.ty.clone() } else { a.ty.clone() };
     if ty == Ty::Bool {
         return Ok(Tr::prop(format!("(if {} then {} else {})", c.as_prop(), a.as_prop(), b.as_prop())));
@@ -637,7 +641,11 @@ fn tr_match(cx: &mut Ctx, m: &ExprMatch, expected: Option<&Ty>) -> R<Tr> {
                 (None, Some(b)) => Some(b),
                 (Some(a), Some(b)) => Some(format!("({} ∧ {})", a, b)),
             };
+            let n_pre = cx.prelude.len();
             let body = tr_expr(cx, &arm.body, ty.as_ref())?;
+            if cx.prelude.len() != n_pre {
+                return Err("side effect (&mut call / iterator advance) inside a match arm expression".into());
+            }
             if ty.is_none() && !matches!(body.ty, Ty::Never) {
                 ty = Some(body.ty.clone());
             }
@@ -663,9 +671,13 @@ fn tr_match(cx: &mut Ctx, m: &ExprMatch, expected: Option<&Ty>) -> R<Tr> {
             cx.pop();
             return Err("match guard".into());
         }
+        let n_pre = cx.prelude.len();
         let body = tr_expr(cx, &arm.body, ty.as_ref());
         cx.pop();
         let body = body?;
+        if cx.prelude.len() != n_pre {
+            return Err("side effect (&mut call / iterator advance) inside a match arm expression".into());
+        }
         if ty.is_none() && !matches!(body.ty, Ty::Never) {
             ty = Some(body.ty.clone());
         }
